@@ -88,6 +88,20 @@ fn c18_method_8_args_refused() {
     assert!(r.is_ok(), "Method with 8 arguments returned flags {:?}", r.err());
 }
 #[test]
+fn c18_arg_and_local_indices_refused() {
+    for i in 0..=255u8 {
+        let r = catch_unwind(AssertUnwindSafe(|| ser(&Arg(i))));
+        if i <= 6 { assert_eq!(r.ok(), Some(vec![0x68 + i]), "Arg{}", i); } else { assert!(r.is_err(), "Arg({}) returned bytes {:02x?} (Arg6 = 0x6e is the last ArgObj opcode)", i, r.ok()); }
+        let r = catch_unwind(AssertUnwindSafe(|| ser(&Local(i))));
+        if i <= 7 { assert_eq!(r.ok(), Some(vec![0x60 + i]), "Local{}", i); } else { assert!(r.is_err(), "Local({}) returned bytes {:02x?} (Local7 = 0x67 is the last LocalObj opcode)", i, r.ok()); }
+    }
+    for n in 0..=255u8 {
+        let r = catch_unwind(AssertUnwindSafe(|| ser(&Method::new("MTH0".into(), n, true, vec![]))));
+        if n <= 7 { let b = r.expect("a method with at most 7 arguments is encodable"); assert_eq!(b[b.len() - 1], n | 0x08, "method flags for {} args", n); }
+        else { assert!(r.is_err(), "Method with {} arguments returned flags", n); }
+    }
+}
+#[test]
 fn c18_address_space_overflowing_range_refused() {
     let r = refuses(|| ser(&AddressSpace::<u16>::new_io(0, 0xffff, None)));
     assert!(r.is_ok(), "u16 range 0..=0xffff (size 0x10000) returned bytes {:02x?}", r.err());
@@ -572,6 +586,28 @@ fn c09_name_paths_reference() {
             }
         }
     }
+    // every short string over {A . \}, through both construction routes (Path::new and From<&str>)
+    let alphabet = ['A', '.', '\\'];
+    for len in 0..=9usize {
+        for code in 0..3usize.pow(len as u32) {
+            let mut c = code;
+            let s: String = (0..len).map(|_| { let ch = alphabet[c % 3]; c /= 3; ch }).collect();
+            let rooted = s.starts_with('\\');
+            let body = if rooted { &s[1..] } else { &s[..] };
+            let segs: Vec<String> = body.split('.').map(|x| x.to_string()).collect();
+            let well_formed = !segs.is_empty() && segs.iter().all(|x| x.len() == 4);   // the crate does not restrict the characters of a segment
+            let via_new = catch_unwind(AssertUnwindSafe(|| ser(&Path::new(&s))));
+            let via_from = catch_unwind(AssertUnwindSafe(|| { let p: Path = s.as_str().into(); ser(&p) }));
+            if well_formed {
+                let want = ref_name(rooted, &segs);
+                assert_eq!(via_new.ok(), Some(want.clone()), "Path::new({:?})", s);
+                assert_eq!(via_from.ok(), Some(want), "Path::from({:?})", s);
+            } else {
+                assert!(via_new.is_err(), "malformed path {:?} was accepted by Path::new: {:02x?}", s, via_new.ok());
+                assert!(via_from.is_err(), "malformed path {:?} was accepted by From<&str>: {:02x?}", s, via_from.ok());
+            }
+        }
+    }
 }
 
 // ---- C07 / C15 / C06: PkgLength framing through public objects at every width boundary
@@ -706,6 +742,25 @@ fn c10_resource_templates_reference() {
         assert_eq!(&d[d.len() - tail.len()..], &tail[..], "sibling after the template (payload {})", payload);
         assert_eq!(d.len(), 2 + dw + 4 + ser(&crs).len() + tail.len());
     }
+    // Generic Register descriptor (ACPI 6.4.3.7): 0x82, length 12, then the GAS fields in order
+    {
+        use acpi_tables::gas::{AccessSize, AddressSpace as Sp, GAS};
+        use zerocopy::IntoBytes;
+        let sizes = [AccessSize::Undefined, AccessSize::ByteAccess, AccessSize::WordAccess, AccessSize::DwordAccess, AccessSize::QwordAccess];
+        for (i, sp) in [Sp::SystemMemory, Sp::SystemIo, Sp::PciConfigSpace, Sp::EmbeddedController, Sp::FunctionalFixedHardware].into_iter().enumerate() {
+            for (j, sz) in sizes.into_iter().enumerate() {
+                let (width, off, addr) = ((8 << (i % 4)) as u8, (j * 5 + i) as u8, 0x0102_0304_0506_0708u64.rotate_left((8 * (i + j)) as u32));
+                let g = GAS::new(sp, width, off, sz, addr);
+                let mut want = vec![sp as u8, width, off, sz as u8];
+                want.extend_from_slice(&addr.to_le_bytes());
+                assert_eq!(ser(&g), want, "GAS serialised field order (space, width, offset, access size, address)");
+                assert_eq!(g.as_bytes(), &want[..], "GAS raw form");
+                let mut r = vec![0x82, 0x0c, 0x00];
+                r.extend_from_slice(&want);
+                assert_eq!(ser(&Register::new(g)), r, "Register descriptor");
+            }
+        }
+    }
     let b = ser(&Interrupt::new(true, false, true, false, 0x1234_5678));
     assert_eq!(b, vec![0x89, 6, 0, 0b0101, 1, 0x78, 0x56, 0x34, 0x12]);
     for bits in 0..16u8 {
@@ -794,6 +849,17 @@ fn c13_generic_table_vector_model() {
             t.write_u8(m.len() - 1, 0x5a); let e = m.len() - 1; m[e] = 0x5a; model_fix(&mut m);
             assert_eq!(t.as_slice(), &m[..], "writes (offset {})", off);
             assert_eq!(bsum(t.as_slice()), 0, "Sdt after writes sums to 0");
+            // writes over the header itself: the Length field made smaller / larger than the contents,
+            // the checksum byte, the signature -- the image is still the vector with byte 9 fixed up
+            for (o, v) in [(4usize, 36u32), (4, 0), (4, m.len() as u32 - 1), (4, u32::MAX), (8, 0x0000_ff00 | round), (0, 0x5445_5354), (6, 0xffff_0000)] {
+                t.write_u32(o, v); m[o..o + 4].copy_from_slice(&v.to_le_bytes()); model_fix(&mut m);
+                assert_eq!(t.as_slice(), &m[..], "write_u32({}, {:#x}) over the header", o, v);
+                assert_eq!(bsum(t.as_slice()), 0, "Sdt sums to 0 after write_u32({}, {:#x}) over the header ({} bytes)", o, v, m.len());
+            }
+            t.write_u8(4, 38); m[4] = 38; model_fix(&mut m);
+            t.write_u8(9, 0x77); m[9] = 0x77; model_fix(&mut m);
+            assert_eq!(t.as_slice(), &m[..], "write_u8 over Length / checksum bytes");
+            assert_eq!(bsum(t.as_slice()), 0, "Sdt sums to 0 after byte writes over the header");
             t.append_slice(&[]); let l = m.len() as u32; m[4..8].copy_from_slice(&l.to_le_bytes()); model_fix(&mut m);
             assert_eq!(t.as_slice(), &m[..], "empty append restores Length");
             step += 1;
